@@ -18,6 +18,8 @@ def View.coreS : View → Bool
   | .forKeyed _ _ => true
   | .scope _ _ _ => false
   | .forRows _ _ _ _ => false
+  | .eb _ => false
+  | .res _ _ => false
 
 /-- `m` is the memo of a `Show` over the condition `c` -/
 def ShowMemo (K : Nat) (st : St) (m : Nat) (c : Expr) : Prop :=
@@ -82,6 +84,8 @@ theorem GoodM.map {P P' : EP} {Q Q' : Nat → Expr → Prop} : ∀ (v : View) (t
     next e sel' lists' ks texts => exact ⟨h.1, h.2.1, hm e _ _ (by simp [effsOf]) h.2.2.1, h.2.2.2⟩
   | scope sid d kid _ => intro t h _ _; cases t <;> simp only [GoodM] at h
   | forRows en sel lists row _ => intro t h _ _; cases t <;> simp only [GoodM] at h
+  | eb kid _ => intro t h _ _; cases t <;> simp only [GoodM] at h
+  | res c x => intro t h _ _; cases t <;> simp only [GoodM] at h
 
 theorem GoodM.viewOf {P : EP} {Q : Nat → Expr → Prop} : ∀ (v : View) (t : RState), GoodM P Q v t →
     RView.viewOf t = v := by
@@ -105,6 +109,8 @@ theorem GoodM.viewOf {P : EP} {Q : Nat → Expr → Prop} : ∀ (v : View) (t : 
   | forKeyed sel lists => intro t h; cases t <;> simp only [GoodM] at h; simp [RView.viewOf, h.1, h.2.1]
   | scope sid d kid _ => intro t h; cases t <;> simp only [GoodM] at h
   | forRows en sel lists row _ => intro t h; cases t <;> simp only [GoodM] at h
+  | eb kid _ => intro t h; cases t <;> simp only [GoodM] at h
+  | res c x => intro t h; cases t <;> simp only [GoodM] at h
 
 theorem GoodM.locals_nil {P : EP} {Q : Nat → Expr → Prop} : ∀ (v : View) (t : RState), GoodM P Q v t →
     t.locals = [] := by
@@ -136,6 +142,8 @@ theorem GoodM.locals_nil {P : EP} {Q : Nat → Expr → Prop} : ∀ (v : View) (
   | forKeyed sel lists => intro t h; cases t <;> simp only [GoodM] at h; rfl
   | scope sid d kid _ => intro t h; cases t <;> simp only [GoodM] at h
   | forRows en sel lists row _ => intro t h; cases t <;> simp only [GoodM] at h
+  | eb kid _ => intro t h; cases t <;> simp only [GoodM] at h
+  | res c x => intro t h; cases t <;> simp only [GoodM] at h
 
 /-- bounds of the effects of a tree whose effects exist -/
 theorem GoodM.bound {K : Nat} {st : St} {Q : Nat → Expr → Prop} : ∀ (v : View) (t : RState),
@@ -192,6 +200,8 @@ theorem GoodM.bound {K : Nat} {st : St} {Q : Nat → Expr → Prop} : ∀ (v : V
       simp only [effsOf, List.mem_singleton] at he; subst he; exact ⟨h.2.2.1.1, h.2.2.1.2.1⟩
   | scope sid d kid _ => intro t h _ _; cases t <;> simp only [GoodM] at h
   | forRows en sel lists row _ => intro t h _ _; cases t <;> simp only [GoodM] at h
+  | eb kid _ => intro t h _ _; cases t <;> simp only [GoodM] at h
+  | res c x => intro t h _ _; cases t <;> simp only [GoodM] at h
 
 /-- a tree held by the task of a dropped effect -/
 structure ZTreeM (K : Nat) (st : St) (h : RState) : Prop where
@@ -305,6 +315,8 @@ theorem held_okM {K : Nat} {st : St} : ∀ (v : View) (t : RState),
       exact ⟨by simp [effsOf], fun h' hh => by cases hh⟩
   | scope sid d kid _ => intro t h _ _ _ _; cases t <;> simp only [GoodM] at h
   | forRows en sel lists row _ => intro t h _ _ _ _; cases t <;> simp only [GoodM] at h
+  | eb kid _ => intro t h _ _ _ _; cases t <;> simp only [GoodM] at h
+  | res c x => intro t h _ _ _ _; cases t <;> simp only [GoodM] at h
 
 /-- every effect of a tree carries its predicate -/
 theorem GoodAttrP.effP {P : EP} : ∀ {a : Attr} {s : AState}, GoodAttrP P a s → ∀ e ∈ s.effs, ∃ x cur, P e x cur := by
@@ -378,6 +390,8 @@ theorem GoodM.effP {P : EP} {Q : Nat → Expr → Prop} : ∀ (v : View) (t : RS
       simp only [effsOf, List.mem_singleton] at he; subst he; exact ⟨_, _, h.2.2.1⟩
   | scope sid d kid _ => intro t h _ _; cases t <;> simp only [GoodM] at h
   | forRows en sel lists row _ => intro t h _ _; cases t <;> simp only [GoodM] at h
+  | eb kid _ => intro t h _ _; cases t <;> simp only [GoodM] at h
+  | res c x => intro t h _ _; cases t <;> simp only [GoodM] at h
 
 theorem GoodAttrsP.wf_extM {K : Nat} {A : Nat → Prop} {st st' : St} {as : List Attr} {ss : List AState}
     (h : GoodAttrsP (EffWf K st) as ss) (hx : ExtM K A st st') : GoodAttrsP (EffWf K st') as ss :=
